@@ -423,10 +423,19 @@ def op_ro(self, a, targets):
     return info
 
 
-def _behaviour(t):
+def _behaviour(t, perms=()):
     """what later callers can see of a tensor: the tree, every fiber's shape and active range, the offered
-    coordinates of an uncompressed walk"""
+    coordinates of an uncompressed walk, and what a few value-returning operations now return"""
     out = [ob.snapshot(t, with_ranks=False)["tree"], repr(t.getShape()), repr(t.getShape(authoritative=True))]
+    ids = t.getRankIds()
+    for perm in perms:
+        if sorted(perm) != list(range(len(ids))):
+            continue
+        try:
+            r = t.swizzleRanks([ids[i] for i in perm])
+            out.append(["swizzle", list(perm), ob.snapshot(r, with_ranks=False)["tree"]])
+        except Exception as e:
+            out.append(["swizzle", list(perm), "raised " + type(e).__name__])
     for d, fibs in enumerate(ob.levels(ob.root_of(t))):
         for fb in fibs:
             row = [d]
@@ -458,12 +467,18 @@ def _twin_differential(self, sl, twin, pre, kind, a, family="ro"):
         return
     top = (max(f.coords) if f.coords else 0) + 2
     point = tuple(pre) + (top,) + (0,) * (sl.depth - len(pre) - 1)
+    n = sl.depth
+    perms = []
+    if n >= 2:
+        perms = [list(range(n))[::-1]]
+        if a.get("kind") == "swizzle" and "perm" in a:
+            perms.append(list(a["perm"]))
     res = []
     for tt in (twin, after):
         try:
             ref = tt.getPayloadRef(*point)
             ref <<= 7
-            res.append(_behaviour(tt))
+            res.append(_behaviour(tt, perms))
         except Exception as e:
             res.append("raised " + type(e).__name__)
     self.probe("twin_differential" if family == "ro" else "twin_differential_vr")
